@@ -466,6 +466,8 @@ func c25ConfigLiteral(c *Ctx, g *core.Graph, at int, arg ast.Expr) (*ast.Composi
 
 // ---------------------------------------------------------------- R2
 
+var c25QualifiedCallRe = regexp.MustCompile(`(?:^|[^\w.)\]])([a-z]\w*)\.([A-Za-z]\w*)\(`)
+
 func c25R2(c *Ctx) {
 	r := c.R
 	fi := c.mustFunc("C25.R2", "", "newICECandidateFromICE")
@@ -589,6 +591,18 @@ func c25R2(c *Ctx) {
 						want += "." + oracle.sub
 					}
 					bad = sprintf("filled from %s, expected exactly %s", s, want)
+				}
+			}
+			// the getter's value must arrive untransformed: no call of an imported (non pion/ice) package function may wrap it
+			if bad == "" {
+				for _, s := range srcs {
+					for _, m := range c25QualifiedCallRe.FindAllStringSubmatch(s, -1) {
+						for _, imp := range fi.Pkg.Types.Imports() {
+							if imp.Name() == m[1] && !strings.Contains(imp.Path(), "pion/ice") {
+								bad = sprintf("filled from %s: the getter's value is transformed by %s.%s before it is stored (the parsed candidate no longer carries the signaled %s)", s, m[1], m[2], f)
+							}
+						}
+					}
 				}
 			}
 			r.Check(bad == "", "C25.R2", key, pos, f+" <- "+strings.Join(srcs, " | "), bad)
